@@ -786,3 +786,214 @@ func c19DynCompPremise(c *Ctx, r *Report) {
 	}
 	r.need("generator outputs inspected for the determinism exception's premise", nFiles, 4)
 }
+
+// c19FlagPrecedence: "declare the requested SDK version": the string handed to the version parser
+// is the -sdk flag whenever the flag is given, and the version in the zip file name only when it is
+// not. Decided on the value's structure in main: a phi whose flag edge is under `flag != ""`, or a
+// helper whose path terms return something other than the flag parameter only on paths that have
+// tested the flag parameter to be empty.
+func c19FlagPrecedence(c *Ctx, r *Report) {
+	const rule = "C19-R2-version"
+	mp := c.pkgs[mainPath]
+	if mp == nil {
+		return
+	}
+	var site *ssa.Call
+	var host *ssa.Function
+	for _, fn := range c.moduleFuncs() {
+		if fnPkgPath(fn) != mainPath {
+			continue
+		}
+		for _, ci := range allCalls(fn) {
+			if f := ci.Common().StaticCallee(); f != nil && f.Name() == "parseMajorAndMinorSDKVersion" {
+				if call, ok := ci.(*ssa.Call); ok {
+					site, host = call, fn
+				}
+			}
+		}
+	}
+	key := "main/sdk-flag-precedence"
+	if site == nil {
+		r.undecided(rule, key, "", "no call of parseMajorAndMinorSDKVersion found in the command")
+		return
+	}
+	isFlag := func(v ssa.Value) bool {
+		ld, ok := v.(*ssa.UnOp)
+		if !ok || ld.Op != token.MUL {
+			return false
+		}
+		call, ok := ld.X.(*ssa.Call)
+		if !ok || call.Common().StaticCallee() == nil || call.Common().StaticCallee().String() != "flag.String" {
+			return false
+		}
+		k, ok := call.Common().Args[0].(*ssa.Const)
+		return ok && k.Value != nil && strings.Trim(k.Value.ExactString(), "\"") == "sdk"
+	}
+	flagNonEmpty := func(v ssa.Value) bool {
+		bo, ok := v.(*ssa.BinOp)
+		if !ok || bo.Op != token.NEQ || !isFlag(bo.X) {
+			return false
+		}
+		k, ok := bo.Y.(*ssa.Const)
+		return ok && k.Value != nil && k.Value.ExactString() == `""`
+	}
+	flagEmpty := func(v ssa.Value) bool {
+		bo, ok := v.(*ssa.BinOp)
+		if !ok || bo.Op != token.EQL || !isFlag(bo.X) {
+			return false
+		}
+		k, ok := bo.Y.(*ssa.Const)
+		return ok && k.Value != nil && k.Value.ExactString() == `""`
+	}
+	x := site.Common().Args[0]
+	pos := c.pos(site.Pos())
+	switch v := x.(type) {
+	case *ssa.Phi:
+		okAll := len(v.Edges) >= 2
+		sawFlag := false
+		for i, e := range v.Edges {
+			p := v.Block().Preds[i]
+			underNonEmpty := domByBoolEdge(host, p, true, flagNonEmpty) || domByBoolEdge(host, p, false, flagEmpty) || edgeOf(p, v.Block(), flagNonEmpty, true) || edgeOf(p, v.Block(), flagEmpty, false)
+			underEmpty := domByBoolEdge(host, p, false, flagNonEmpty) || domByBoolEdge(host, p, true, flagEmpty) || edgeOf(p, v.Block(), flagNonEmpty, false) || edgeOf(p, v.Block(), flagEmpty, true)
+			if isFlag(e) {
+				sawFlag = true
+				if !underNonEmpty {
+					okAll = false
+				}
+			} else if !underEmpty {
+				okAll = false
+			}
+		}
+		r.check(okAll && sawFlag, rule, key, pos, "the -sdk flag is used whenever it is given; the zip file name only when it is not", "the version string is not `flag if given, else the zip name`: a run with -sdk and a zip input declares a version other than the one requested")
+	case *ssa.Call:
+		f := v.Common().StaticCallee()
+		if f == nil || fnPkgPath(f) != mainPath || len(f.Blocks) == 0 {
+			r.undecided(rule, key, pos, "the version string comes from "+calleeName(v.Common())+", which is not a helper of the command")
+			return
+		}
+		pflag := ""
+		for i, a := range v.Common().Args {
+			if isFlag(a) {
+				pflag = fmt.Sprintf("p%d", i)
+			}
+		}
+		if pflag == "" {
+			r.fail(rule, key, pos, "the helper that chooses the version string is not given the -sdk flag: the flag cannot override the zip file name")
+			return
+		}
+		o := symPathsOpaque(f, 2, "parseSDKVersionStringFromZipFilePath")
+		if o.why != "" {
+			r.undecided(rule, key, pos, "the helper that chooses the version string is not readable as path terms: "+o.why)
+			return
+		}
+		bad := ""
+		for _, p := range o.paths {
+			if len(p.rets) != 1 || p.rets[0] == pflag {
+				continue
+			}
+			emptyKnown := false
+			for _, cnd := range p.conds {
+				if cnd == "T:(== "+pflag+" \"\")" || cnd == "T:(== \"\" "+pflag+")" {
+					emptyKnown = true
+				}
+			}
+			if !emptyKnown {
+				bad = fmt.Sprintf("returns %s on a path with conditions %v", p.rets[0], p.conds)
+			}
+		}
+		r.check(bad == "", rule, key, pos, "the helper returns something other than the -sdk flag only on paths where the flag is empty", "the helper that chooses the version string "+bad+", without having found the -sdk flag empty: a run with -sdk and a zip input declares the zip's version, not the one requested")
+	default:
+		if isFlag(x) {
+			r.fail(rule, key, pos, "the version string is always the -sdk flag: a zip input without the flag has no version")
+			return
+		}
+		r.undecided(rule, key, pos, "the version string is "+stripAddrs(pathOf(x))+", not a choice between the -sdk flag and the zip file name")
+	}
+}
+
+// edgeOf: the edge p -> s is the true (want) / false edge of a test matching pred.
+func edgeOf(p, s *ssa.BasicBlock, pred func(ssa.Value) bool, want bool) bool {
+	if len(p.Instrs) == 0 {
+		return false
+	}
+	ifi, ok := p.Instrs[len(p.Instrs)-1].(*ssa.If)
+	if !ok || !pred(ifi.Cond) || p.Succs[0] == p.Succs[1] {
+		return false
+	}
+	if want {
+		return p.Succs[0] == s
+	}
+	return p.Succs[1] == s
+}
+
+// c19InputLimits: "for each supported SDK workbook ... the command exits successfully": a size limit
+// the command puts on its input (a comparison of an archive entry's or a file's size with a
+// constant, an io.LimitReader) must admit every workbook the repository bundles; the largest of
+// them is measured on every run.
+func c19InputLimits(c *Ctx, r *Report) {
+	const rule = "C19-R4-input-limits"
+	books, _ := filepath.Glob(filepath.Join(c.repo, "cmd/fitgen/internal/profile/testdata", "*.xlsx"))
+	var maxSize int64
+	maxName := ""
+	for _, b := range books {
+		if st, err := os.Stat(b); err == nil && st.Size() > maxSize {
+			maxSize, maxName = st.Size(), filepath.Base(b)
+		}
+	}
+	if maxSize == 0 {
+		r.fail(rule, "workbooks", "", "no bundled workbook found under cmd/fitgen/internal/profile/testdata")
+		return
+	}
+	sizeLike := func(v ssa.Value) bool {
+		p := pathOf(v)
+		return strings.Contains(p, "UncompressedSize") || strings.Contains(p, "CompressedSize") || strings.Contains(p, ".Size]") || strings.Contains(p, "FileInfo).Size") || strings.Contains(p, "call[dynamic:len]")
+	}
+	n := 0
+	for _, fn := range c.moduleFuncs() {
+		if fnPkgPath(fn) != mainPath && fnPkgPath(fn) != genPath {
+			continue
+		}
+		if strings.HasSuffix(c.fset.Position(fn.Pos()).Filename, "_test.go") {
+			continue
+		}
+		for _, b := range fn.Blocks {
+			for _, ins := range b.Instrs {
+				switch x := ins.(type) {
+				case *ssa.BinOp:
+					switch x.Op {
+					case token.GTR, token.GEQ, token.LSS, token.LEQ:
+					default:
+						continue
+					}
+					var k *ssa.Const
+					var other ssa.Value
+					if kc, ok := x.Y.(*ssa.Const); ok {
+						k, other = kc, x.X
+					} else if kc, ok := x.X.(*ssa.Const); ok {
+						k, other = kc, x.Y
+					}
+					if k == nil || k.Value == nil || !sizeLike(stripConv(other)) {
+						continue
+					}
+					lim, ok := constBits(k.Value, 64)
+					if !ok || lim < 4096 {
+						continue // not an input-size limit (small structural constants)
+					}
+					n++
+					r.check(int64(lim) >= maxSize, rule, fmt.Sprintf("%s/size-test#%d", fn.Name(), n), c.pos(x.Pos()), fmt.Sprintf("limit %d admits the largest bundled workbook (%s, %d bytes)", lim, maxName, maxSize), fmt.Sprintf("the command compares an input size with %d, but the bundled workbook %s has %d bytes: generating from it fails", lim, maxName, maxSize))
+				case *ssa.Call:
+					if f := x.Common().StaticCallee(); f != nil && f.String() == "io.LimitReader" && len(x.Common().Args) == 2 {
+						n++
+						key := fmt.Sprintf("%s/LimitReader#%d", fn.Name(), n)
+						if k, ok := x.Common().Args[1].(*ssa.Const); ok && k.Value != nil {
+							r.check(k.Int64() >= maxSize, rule, key, c.pos(x.Pos()), fmt.Sprintf("limit %d admits the largest bundled workbook (%d bytes)", k.Int64(), maxSize), fmt.Sprintf("input is read through io.LimitReader(%d), but the bundled workbook %s has %d bytes: it is cut short", k.Int64(), maxName, maxSize))
+						} else {
+							r.undecided(rule, key, c.pos(x.Pos()), "input is read through an io.LimitReader whose limit is not a constant")
+						}
+					}
+				}
+			}
+		}
+	}
+	r.ok(rule, "scan", "", fmt.Sprintf("%d size limits on the command's input; largest bundled workbook %s = %d bytes", n, maxName, maxSize))
+}
